@@ -57,8 +57,23 @@ Definition init_of (k : kind) (v : Z) : Z := match k with KLock => 1 | _ => v en
 Definition init_state (k : kind) (v : Z) : option state :=
   if init_of k v <? 0 then None else Some (mkState (init_of k v) [] [] 0).
 
+(* the `timeout` argument of acquire / wait.  The code tests `timeout is not None`, so the
+   falsy values 0, 0.0 and timedelta(0) are deadlines like any other (they expire at the
+   next loop iteration); the forms are distinguished so that the correspondence exercises
+   each of them against the real code. *)
+Inductive tmo :=
+| TNone        (* no timeout argument / None *)
+| TAbs         (* absolute time (float, > now) *)
+| TDelta       (* datetime.timedelta > 0 *)
+| TZeroInt     (* 0 *)
+| TZeroFloat   (* 0.0 *)
+| TZeroDelta.  (* datetime.timedelta(0) *)
+
+(* `timeout is not None` *)
+Definition timed_of (t : tmo) : bool := match t with TNone => false | _ => true end.
+
 Inductive op :=
-| Acquire (timed : bool)   (* acquire(timeout) ; timed=false: acquire() *)
+| Acquire (t : tmo)        (* acquire(timeout) *)
 | Release
 | Fire (w : nat)           (* the IOLoop runs the timeout handle of future w *)
 | Cancel (w : nat)         (* user calls future_w.cancel() *)
@@ -147,7 +162,7 @@ Definition do_drain (s : state) : state :=
 
 Definition step (k : kind) (v0 : Z) (s : state) (o : op) : state * event :=
   match o with
-  | Acquire t => do_acquire t s
+  | Acquire t => do_acquire (timed_of t) s
   | Release => do_release k v0 s
   | Fire w => do_fire w s
   | Cancel w => do_cancel w s
@@ -185,7 +200,7 @@ Definition spec_step (k : kind) (v0 : Z) (a : spec) (o : op) : spec * event :=
   match o with
   | Acquire t =>
       if 0 <? a_value a then (mkSpec (a_value a - 1) (a_queue a) (S (a_next a)), EvGranted (a_next a))
-      else (mkSpec (a_value a) (a_queue a ++ [(a_next a, t)]) (S (a_next a)), EvQueued (a_next a))
+      else (mkSpec (a_value a) (a_queue a ++ [(a_next a, timed_of t)]) (S (a_next a)), EvQueued (a_next a))
   | Release =>
       if (match k with KSem => false | _ => init_of k v0 <=? a_value a end) then (a, EvReleaseErr)
       else match a_queue a with
